@@ -434,7 +434,7 @@ func TestVerifC01(t *testing.T) {
 		"reversed order, header S flag / length) at every IE position of every nesting level of one rich message per dispatched type (+ response and unsupported types) is injected " +
 		"through the real HandlePFCPMsg (thorough: all pairs of top-level mutations); byte level in a state with a live session: every truncation, 12 byte values per position, all " +
 		"strings of length <= 2. distinct_nontrivial = distinct (state, message, mutation) and byte cases executed"
-	res.Assumptions = []string{"a handler that does not return within 30 s is wedged (no such case is expected; the bound is not an oracle for anything else)",
+	res.Assumptions = []string{"a handler that does not return within 90 s is wedged (no such case is expected; the bound is not an oracle for anything else)",
 		"panics in goroutines spawned by the code under test kill the worker and are attributed through the journal"}
 	depth := 3
 	if vEnv.Thorough {
@@ -443,6 +443,8 @@ func TestVerifC01(t *testing.T) {
 	scs := []c01Scenario{
 		{"bess-uealloc", vCfg{NConns: 2, UEIPAlloc: true, Pool: "10.250.0.0/28"}},
 		{"bess-nopool", vCfg{NConns: 2}},
+		// the UP4 plug-in has parsers, checks and channels of its own (end markers disabled: nobody reads that channel)
+		{"up4", vCfg{NConns: 2, P4: true, P4Conf: &vP4Cfg{DefaultTC: 3}}},
 	}
 	mk := func(ex *seqExplorer, sc c01Scenario) func() seqSys {
 		return func() seqSys { return newSessSys(ex, res, sc.Cfg, c01Alphabet) }
